@@ -1,6 +1,7 @@
 import MitumModel.Common
 import MitumModel.Model.OpPool
 import MitumModel.Model.ExpelPool
+import MitumModel.Model.BallotPool
 import MitumModel.Gen.C23
 namespace Mitum.Driver
 open Mitum
@@ -53,6 +54,56 @@ def stepC23 (ts : List String) : String :=
         | none => (acc.1, acc.2 ++ ["none"])
       | _ => (acc.1, acc.2 ++ ["bad-op"])
     joinSp (ops.foldl step ([], [])).2
+  | _ => "bad-op"
+
+end Mitum.Driver
+
+namespace Mitum.Driver
+open Mitum
+
+def parseNats (s : String) (sep : String) : Option (List Nat) := (s.splitOn sep).mapM String.toNat?
+
+/-- C24: `seq sb:<h.r.acc.sc>:<id> gb:<h.r.acc.sc> sp:<fact>:<h.r.proposer.prev>:<id> gp:<fact> gt:<h.r.proposer.prev> cb:<deep> cp:<deep>` -/
+def stepC24 (ts : List String) : String :=
+  match ts with
+  | "seq" :: ops =>
+    let showOpt := fun (o : Option Nat) => match o with | some v => toString v | none => "none"
+    let step := fun (acc : BallotPool.State × List String) (t : String) =>
+      match t.splitOn ":" with
+      | ["sb", k, v] =>
+        match parseNats k ".", v.toNat? with
+        | some [h, r, a, sc], some v =>
+          let res := BallotPool.setBallot acc.1 { h := h, r := r, acc := a == 1, sc := sc == 1 } v
+          (res.1, acc.2 ++ [boolStr res.2])
+        | _, _ => (acc.1, acc.2 ++ ["bad-op"])
+      | ["gb", k] =>
+        match parseNats k "." with
+        | some [h, r, a, sc] => (acc.1, acc.2 ++ [showOpt (BallotPool.getBallot acc.1 { h := h, r := r, acc := a == 1, sc := sc == 1 })])
+        | _ => (acc.1, acc.2 ++ ["bad-op"])
+      | ["sp", f, t, p] =>
+        match f.toNat?, parseNats t ".", p.toNat? with
+        | some f, some [h, r, pr, pv], some p =>
+          let res := BallotPool.setProposal acc.1 f { h := h, r := r, proposer := pr, prev := pv } p
+          (res.1, acc.2 ++ [boolStr res.2])
+        | _, _, _ => (acc.1, acc.2 ++ ["bad-op"])
+      | ["gp", f] =>
+        match f.toNat? with
+        | some f => (acc.1, acc.2 ++ [showOpt (BallotPool.getProposal acc.1 f)])
+        | none => (acc.1, acc.2 ++ ["bad-op"])
+      | ["gt", t] =>
+        match parseNats t "." with
+        | some [h, r, pr, pv] => (acc.1, acc.2 ++ [showOpt (BallotPool.proposalByPoint acc.1 { h := h, r := r, proposer := pr, prev := pv })])
+        | _ => (acc.1, acc.2 ++ ["bad-op"])
+      | ["cb", d] =>
+        match d.toNat? with
+        | some d => (BallotPool.cleanBallots acc.1 d, acc.2 ++ ["ok"])
+        | none => (acc.1, acc.2 ++ ["bad-op"])
+      | ["cp", d] =>
+        match d.toNat? with
+        | some d => (BallotPool.cleanProposals acc.1 d, acc.2 ++ ["ok"])
+        | none => (acc.1, acc.2 ++ ["bad-op"])
+      | _ => (acc.1, acc.2 ++ ["bad-op"])
+    joinSp (ops.foldl step (BallotPool.init, [])).2
   | _ => "bad-op"
 
 end Mitum.Driver
